@@ -512,6 +512,8 @@ pub struct ExecOpts {
     pub lean: bool,
     /// run index (for sample selection only)
     pub run: u64,
+    /// UTC offset of the process time zone (what an unhooked chrono::Local sees)
+    pub process_offset: i32,
 }
 
 /// Executes one operation and checks it. Returns a violation, if any.
@@ -571,6 +573,12 @@ pub fn exec_op(
         });
     }
     if unrep {
+        stats.skipped_unrepresentable += 1;
+        return None;
+    }
+    // An unhooked read sees the process time zone, not the simulated offset:
+    // comparable only when the two coincide.
+    if readings.iter().any(|r| r.via_syscall && r.offset != opts.process_offset) {
         stats.skipped_unrepresentable += 1;
         return None;
     }
@@ -683,9 +691,8 @@ pub fn exec_op(
     }
 
     // seam fidelity: hook path vs real chrono::Local::now() over the interposed clock_gettime
-    if opts.crosscheck && cross_sample && r_inv.nanos < 1_000_000_000 {
-        let local = r_inv.secs + r_inv.offset as i64;
-        if (86_400..200_000_000_000).contains(&local) {
+    if opts.crosscheck && cross_sample && r_inv.nanos < 1_000_000_000 && r_inv.offset == opts.process_offset {
+        if (200_000..200_000_000_000).contains(&r_inv.secs) {
             let mut frozen = SimClock::new(r_inv.secs, r_inv.nanos, r_inv.offset);
             frozen.stall_reads = u32::MAX;
             let (a, _) = run_under(frozen.clone(), true, &op.kind, clk);
